@@ -293,6 +293,28 @@ TrStateSweep ==
                             IN e.out[x + 1] = s.o /\ (HasF(e, "ni") => (e.ni[x + 1] = s.i /\ e.np[x + 1] = s.p))>> >>,
                    {"StateSweep", "StateSweep." \o e.exp \o "." \o e.dir})
 
+\* One call of tens of megabytes on a clone of a half against the SAME bytes fed to another clone in chunks: the stream does
+\* not depend on how it is cut into calls (EncRun/DecRun are folds), so output (as digests) and final state agree; sampled
+\* chunks of the chunked run are judged against the specification from the state they start in (StateChunk).
+TrBigCall ==
+    /\ IsEv("BigCall")
+    /\ LET e == E
+           p == PC(e.exp) IN
+       /\ UNCHANGED tvars
+       /\ IF ImplPanic(e) THEN DonePure(<< <<"C14.total", FALSE>> >>, {"BigCall"}) ELSE
+          DonePure(<< << p \o ".bigCall", e.dBig = e.dChunked /\ e.stBig = e.stChunked>> >>,
+                   {"BigCall", "BigCall." \o e.exp \o "." \o e.dir})
+
+TrStateChunk ==
+    /\ IsEv("StateChunk")
+    /\ LET e == E
+           key == CipherKey(e.exp, e.K)
+           st == [i |-> e.cst.i, p |-> e.cst.p]
+           p == PC(e.exp) IN
+       /\ UNCHANGED tvars
+       /\ DonePure(<< << p \o ".bytes", IF e.dir = "enc" THEN EncRel(key, st, e.data, e.out) ELSE DecRel(key, st, e.data, e.out)>> >>,
+                   {"StateChunk"})
+
 \* exhaustive size sweep: per block of 4096 sizes the SHA-1 over (plaintext header, header decoded by
 \* the read path, header decoded by the two-step path, consumed-exactly flag), recomputed from the codec
 SweepBlock(op, blk) ==
@@ -312,7 +334,7 @@ TrSizeSweep ==
 Next ==
     \/ TrReset \/ SkipBad(tvars)
     \/ TrWorldClient \/ TrWorldServer \/ TrCall \/ TrEncHdr \/ TrDecHdr
-    \/ TrWrathAttempt \/ TrWrathComplete \/ TrReadHdr \/ TrWriteHdr
+    \/ TrWrathAttempt \/ TrWrathComplete \/ TrReadHdr \/ TrWriteHdr \/ TrBigCall \/ TrStateChunk
     \/ TrParseHdr \/ TrSplit \/ TrUnsplit \/ TrCloneHalf \/ TrDropHalf \/ TrStateSweep \/ TrSizeSweep
 
 Spec == Init /\ [][Next]_vars
